@@ -145,7 +145,7 @@ func checkDeriv(c derivCase) *vk.Failure {
 }
 
 func TestFDDerivative(t *testing.T) {
-	vk.Run(t, "fd-derivative", vk.Opts{Quick: 8000, Thorough: 200000, NoCrumb: true}, func(t *rapid.T) derivCase {
+	vk.Run(t, "fd-derivative", vk.Opts{Quick: 8000, Thorough: 800000, NoCrumb: true}, func(t *rapid.T) derivCase {
 		c := derivCase{
 			X:       rapid.IntRange(-64, 64).Draw(t, "x"),
 			StepExp: rapid.IntRange(-4, 2).Draw(t, "stepexp"),
@@ -215,8 +215,8 @@ var secondOrders = []firstOrder{
 
 type multiCase struct {
 	N       int
-	M       int // outputs of the vector function for Jacobian
-	Formula int // index into firstOrders (and, mod 3, secondOrders)
+	M       int   // outputs of the vector function for Jacobian
+	Formula int   // index into firstOrders (and, mod 3, secondOrders)
 	X, Y    []int // coordinates in units of 1/4
 	StepExp int
 	StepIn  int // 0: Settings.Step, 1: Formula.Step
@@ -598,7 +598,7 @@ func checkMulti(c multiCase) *vk.Failure {
 }
 
 func TestFDMulti(t *testing.T) {
-	vk.Run(t, "fd-multi", vk.Opts{Quick: 10000, Thorough: 300000, NoCrumb: true}, func(t *rapid.T) multiCase {
+	vk.Run(t, "fd-multi", vk.Opts{Quick: 10000, Thorough: 1000000, NoCrumb: true}, func(t *rapid.T) multiCase {
 		n := vk.Dim(t, "n", 1, 8, 2)
 		c := multiCase{
 			N:       n,
